@@ -14,6 +14,9 @@ PROP = dict(
         dict(name="exhaustive-depth4", harness="c02_timers", flavour="asan", mode="exhaustive",
              args=["--depth", "4", "--watchdog", "300"], quick=0, thorough=5400, scalable=False, exhaustive=True,
              case_timeout=900),
+        # 2 engines x {one-shot, persistent} x 8 far intervals x {alone, next to a 5 ms one-shot}
+        dict(name="far-deadlines", harness="c02_timers", flavour="asan", mode="far", quick=64, thorough=64, scalable=False,
+             exhaustive=True, args=["--watchdog", "60"], case_timeout=120, min_shard=16),
         # real clock, real sleeps: ~50-100 ms per case, almost all of it asleep
         dict(name="realtime", harness="c02_timers", flavour="asan", mode="realtime", quick=64, thorough=640,
              args=["--watchdog", "30"], case_timeout=60),
@@ -93,7 +96,7 @@ PROP = dict(
         # loop sleeps no longer than the nearest deadline
         "wait_time_equals_distance_to_nearest_deadline", "wait_time_zero_with_overdue_timer", "rt_lower_bound_checked",
         "kernel_waits_observed", "once_pass_without_pending_task", "kernel_wait_positive_timeout_within_bound",
-        "palette_with_intervals_beyond_2^31_ms", "kernel_wait_with_nearest_deadline_beyond_2^31_ms",
+        "palette_with_intervals_beyond_2^31_ms", "kernel_wait_with_nearest_deadline_beyond_2^31_ms", "far_cases",
         # TimerPool
         "op_cancel_live", "op_cancel_stale_token", "op_cancel_token_from_before_cleanup", "cb_cancel_other_due_in_same_pass",
         "cb_cancel_self_persistent", "cb_cancel_self_oneshot_already_fired", "op_cleanup_with_live_timers", "op_cleanup_inside_pass",
